@@ -2,6 +2,10 @@
 use vstd::prelude::*;
 verus! {
 //%% include-assumed inc/varlabel.rs
+//%% include prelude/env.rs
 //%% include inc/dtree.rs
+//%% include trusted/cnf_stub.rs
+//%% include trusted/order_iter.rs
+//%% include inc/dtree_from_cnf.rs
 } // verus!
 fn main() {}
